@@ -96,6 +96,15 @@ func (c *FnCtx) exec(in ssa.Instruction) {
 		p := c.val(in.Addr)
 		v := c.val(in.Val)
 		if len(v.Path) > 0 {
+			// a local variable assigned exactly once and only read afterwards (also by closures) may hold an
+			// interior pointer: its value is tracked outside the heap model
+			if a, ok := in.Addr.(*ssa.Alloc); ok && singleAssignCell(a, in) {
+				if c.interiorCell == nil {
+					c.interiorCell = map[*ssa.Alloc]interiorVal{}
+				}
+				c.interiorCell[a] = interiorVal{v: v, store: in}
+				return
+			}
 			c.unsup("interior pointer stored to memory: %s (value %s)", in, in.Val.Name())
 		}
 		c.nilCheck(p, true, "store")
@@ -173,6 +182,17 @@ func (c *FnCtx) exec(in ssa.Instruction) {
 		}
 		c.stringToBytes(in)
 		return
+	}
+	if u, isUn := in.(*ssa.UnOp); isUn && u.Op == token.MUL {
+		if a, isAlloc := u.X.(*ssa.Alloc); isAlloc {
+			if iv, ok := c.interiorCell[a]; ok {
+				if !iv.store.Block().Dominates(c.curBlock) {
+					c.unsup("interior pointer variable read where its assignment does not dominate")
+				}
+				c.setVal(u, iv.v)
+				return
+			}
+		}
 	}
 	if v, ok := in.(ssa.Value); ok {
 		if u, isUn := in.(*ssa.UnOp); isUn && u.Op.String() == "<-" {
@@ -684,4 +704,59 @@ func allocEscapes(a ssa.Value, depth int) (esc []ssa.Instruction, ok bool) {
 		}
 	}
 	return esc, true
+}
+
+type interiorVal struct {
+	v     Val
+	store *ssa.Store
+}
+
+// singleAssignCell: the only store to the local variable a is st, and every other use is a load, a debug
+// reference, or a capture by a closure that only loads it.
+func singleAssignCell(a *ssa.Alloc, st *ssa.Store) bool {
+	refs := a.Referrers()
+	if refs == nil {
+		return false
+	}
+	for _, r := range *refs {
+		switch x := r.(type) {
+		case *ssa.DebugRef:
+		case *ssa.Store:
+			if x != st || x.Val == ssa.Value(a) {
+				return false
+			}
+		case *ssa.UnOp:
+			if x.Op != token.MUL {
+				return false
+			}
+		case *ssa.MakeClosure:
+			fn, ok := x.Fn.(*ssa.Function)
+			if !ok {
+				return false
+			}
+			for i, b := range x.Bindings {
+				if b != ssa.Value(a) {
+					continue
+				}
+				frefs := fn.FreeVars[i].Referrers()
+				if frefs == nil {
+					return false
+				}
+				for _, fr := range *frefs {
+					switch y := fr.(type) {
+					case *ssa.DebugRef:
+					case *ssa.UnOp:
+						if y.Op != token.MUL {
+							return false
+						}
+					default:
+						return false
+					}
+				}
+			}
+		default:
+			return false
+		}
+	}
+	return true
 }
